@@ -8,6 +8,13 @@ from props import PROPS, LEVELS as LEVEL_TEXT
 from manifest_extra import NOT_YET, HOOK_COMMITS, NOTES, READY
 PROPS = {k: v for k, v in PROPS.items() if k in READY}
 
+def hook_commits():
+    import subprocess
+    try:
+        out = subprocess.run(["git", "-C", "/repo", "log", "--format=%h %s"], capture_output=True, text=True).stdout
+        return [l.split(" ", 1)[0] for l in reversed(out.strip().split("\n")) if l.split(" ", 1)[1].startswith("verif hook")]
+    except Exception:
+        return HOOK_COMMITS
 ids = [json.loads(l)["id"] for l in open(os.path.join(ROOT, "properties.jsonl"))]
 checks = []
 for pid in ids:
@@ -33,7 +40,7 @@ m = {
         "guard": "verif",
         "enable": "cargo feature `verif` of parsley-rust, switched on by the harness's path dependency (parsley-rust = { path = \"/repo\", features = [\"verif\"] })",
         "baseline_off_cmd": "cd /repo && cargo test --workspace --no-fail-fast --offline",
-        "source_commits": HOOK_COMMITS,
+        "source_commits": hook_commits(),
         "add_only": True,
     },
     "engines": [{
